@@ -199,23 +199,43 @@ func init() {
 }
 
 var kindPatterns = map[string]func(i int) int{
-	"all-meta":    func(i int) int { return 0 },
-	"all-ch0":     func(i int) int { return 1 },
-	"meta-ch0":    func(i int) int { return i % 2 },
-	"cycle5":      func(i int) int { return i % 5 },
+	"all-meta":     func(i int) int { return 0 },
+	"all-ch0":      func(i int) int { return 1 },
+	"meta-ch0":     func(i int) int { return i % 2 },
+	"cycle5":       func(i int) int { return i % 5 },
 	"ch15-ch3-ch0": func(i int) int { return 3 - i%3 },
-	"meta-sysex":  func(i int) int { return (i % 2) * 4 },
-	"16-channels": func(i int) int { return 5 + (i*7)%16 },
-	"ch0-ch1":     func(i int) int { return 5 + i%2 },
-	"ch14-heavy-ch15": func(i int) int { if i%10 == 9 { return 5 + 15 }; return 5 + 14 },
+	"meta-sysex":   func(i int) int { return (i % 2) * 4 },
+	"16-channels":  func(i int) int { return 5 + (i*7)%16 },
+	"ch0-ch1":      func(i int) int { return 5 + i%2 },
+	"ch14-heavy-ch15": func(i int) int {
+		if i%10 == 9 {
+			return 5 + 15
+		}
+		return 5 + 14
+	},
 }
 
 var deltaPatterns = map[string]func(i int) uint32{
-	"one-tick":     func(i int) uint32 { return 0 },
-	"start-late":   func(i int) uint32 { if i == 0 { return 7 }; return 0 },
-	"every-5th":    func(i int) uint32 { if i%5 == 4 { return 1 }; return 0 },
-	"increasing":   func(i int) uint32 { return 1 },
-	"two-clusters": func(i int) uint32 { if i == 15 { return 100 }; return 0 },
+	"one-tick": func(i int) uint32 { return 0 },
+	"start-late": func(i int) uint32 {
+		if i == 0 {
+			return 7
+		}
+		return 0
+	},
+	"every-5th": func(i int) uint32 {
+		if i%5 == 4 {
+			return 1
+		}
+		return 0
+	},
+	"increasing": func(i int) uint32 { return 1 },
+	"two-clusters": func(i int) uint32 {
+		if i == 15 {
+			return 100
+		}
+		return 0
+	},
 }
 
 func denseCase(n int, kp, dp string, closeIt bool, closeDelta uint32) (s *smf.SMF, src []refsmf.Event) {
@@ -294,7 +314,7 @@ func main() {
 		{Name: "conv-10-messages", Cfgs: cfgs, AlName: "c16", Deltas: []uint32{0, 1, 100}, CloseDeltas: []uint32{0, 3},
 			Add2: true, MaxEvents: ctx.Pick(3, 4), MaxTracks: 1},
 		{Name: "conv-tiny-deeper", Cfgs: cfgs[:1], AlName: "tiny", Deltas: []uint32{0, 1}, CloseDeltas: []uint32{0},
-			MaxEvents: ctx.Pick(6, 8), MaxTracks: 1},
+			MaxEvents: ctx.Pick(6, 7), MaxTracks: 1},
 	}
 	type job struct {
 		p   sp.Plan
